@@ -335,6 +335,7 @@ func main() {
 	wk := <-wch
 	if os.Getenv("C17_ONLY") == "" {
 		thresholdPhase(wk)
+		bigPhase()
 	}
 	enumWall := time.Since(enumStart)
 	preAttrEval := atomic.LoadInt64(&nArchEval)
@@ -364,7 +365,7 @@ func main() {
 	run.Assume("member extents (header+data+descriptor) are taken from the generator's layout map for generated archives and from the tiling of local-header offsets for relic-written ones")
 	run.Assume("WriteDirectory of an unmodified directory must reproduce the central-directory entries byte for byte and yield end records the references accept (op 'identity'); only GetOriginalDirectory is required to reproduce the end records byte for byte")
 	run.Assume("single-pass mode visits members in directory order, as every relic caller does")
-	run.Assume("sizes at the 4 GiB thresholds (sparse synthesis) are not covered by this harness")
+	run.Assume("the 4 GiB thresholds are covered by one sparse-synthesised archive (a stored member of 4 GiB + 4 KiB and a member behind it; cmd/c17/big.go) read by archive/zip only (Python cannot be given a virtual file): listing, original directory, Mangle keep/delete with both end-record policies; the generated families themselves stay below 4 GiB")
 	if capHit.Load() {
 		run.Capped(fmt.Sprintf("time budget %s reached: %d generated archives not run", budget, notRun))
 	}
